@@ -36,6 +36,7 @@ fn main() {
         "contend" => statics::contend(rest),
         "deep" => statics::deep(rest),
         "samename" => local::run(rest),
+        "localtz" => local::localtz(rest),
         "monotypes" => {
             for t in mono::MONO_TYPES.iter().chain(mono::SLICE_TYPES) {
                 println!("{t}");
